@@ -880,13 +880,18 @@ def _add_returns(rng, cnt, nodes, p=0.45):
     return out
 
 
-def _variant_def(rng, cnt, name, params, maxdepth):
+def _variant_def(rng, cnt, name, params, maxdepth, callee=None):
     for _ in range(50):
         body = gen_body(rng, cnt, 1, maxdepth, in_func=True, n=rng.randint(2, 3))
         if any(n[0] == "block" for n in body):
             break
     body = _add_returns(rng, cnt, _use_param(rng, body))
+    if callee and rng.random() < 0.7:
+        # calls in RETURN position: the variant of this function for a signature asks for the callee's variant of that signature
+        body = [("block", "if", f"if{M1}v{O1}>{O1}{cnt.next()}{O0}:", [("leaf", f"return{M1}{callee}({O0}v{O0})", ("jump", f"return {callee}(v);"))])] + body
     body = body + [("leaf", f"return{M1}v", ("jump", "return v;"))]
+    if rng.random() < 0.25:
+        params = [params[0] + ": " + rng.choice(["float", "int"])] + params[1:]          # an annotated first parameter
     return ("def", f"def{M1}{name}({O0}{(',' + O1).join(params)}{O0}){O0}:", body)
 
 
@@ -917,10 +922,13 @@ def gen_variant_program(rng, maxdepth=3):
     tops = _prelude_plain()
     calls = []
     k = 0
+    fn0_single = False
     for i in range(rng.choice([1, 1, 2])):
         name = f"fn{i}"
         params = ["v"] if rng.random() < 0.65 else ["v", "w"]
-        tops.append(_variant_def(rng, cnt, name, params, maxdepth))
+        tops.append(_variant_def(rng, cnt, name, params, maxdepth, callee=("fn0" if i == 1 and fn0_single else None)))
+        if i == 0:
+            fn0_single = len(params) == 1
         sigs = set()
         for _ in range(rng.choice([2, 2, 3])):
             sigs.add(tuple(rng.choice(["int", "float", "float", "bool"]) for _ in params))
